@@ -12,6 +12,7 @@ import KafkaVerif.Model.ReaderLoop
 import KafkaVerif.Model.ReaderFront
 import KafkaVerif.Gen.DecoderFacts
 import KafkaVerif.Lemmas.ReaderFront
+import KafkaVerif.Lemmas.ByteLayout
 
 namespace KV.C02
 
@@ -158,6 +159,30 @@ example : LWF 0 [.m 1 97 1 60, .w 1 100 90 [(0, 2), (2, 3)], .b2 101 104 false 3
 (a response no contract-obeying broker sends) makes readMessageV1's loop parse the batch header as a message -/
 theorem unsafe_layout_counterexample :
     (readAll .fixed false 8 20 (responseTokens [.m 1 5 1 60, .b2 10 11 false 12 [(0, 2, 12)]] (-1))).2.2 = .desync := by decide
+
+/-- `single_fetch` about **bytes** for the sublanguage "untruncated message set of uncompressed v2 record batches":
+the bytes the reference encoder (`Spec/RecordBatch.lean`) produces for the batches `bs` tokenize
+(`Spec/ByteLayout.tokenizeSet`, proved to invert the encoder: `tokenizeSet_enc`) to a stream on which the decoder
+delivers exactly the stored records at or above `o`.  `crc` is any checksum function below 2³², `dg` any digest of
+the observable record fields. -/
+theorem single_fetch_bytes (crc : Bytes → Nat) (hcrc : ∀ b, crc b < RW.M32) (dg : Spec.RB.FrameV2 → Spec.RB.RecV2 → Nat)
+    (bs : List BBatch) (hframes : ∀ b ∈ bs, b.frame.WF) (nb : Int) (hnb : 0 ≤ nb) (hwf : LWF nb (layoutOf dg bs))
+    (o hwm : Int) (ho : 0 ≤ o) (hne : hwm ≠ o) (expired : Bool) :
+    ∃ toks, tokenizeSet crc dg bs.length (encSetV2 crc bs) = some toks ∧
+      (readAll .fixed expired o hwm toks).1 = (allRecords (layoutOf dg bs)).filter (fun r => o ≤ r.1) ∧
+      (readAll .fixed expired o hwm toks).2.2 ≠ .desync ∧
+      (∀ r ∈ allRecords (layoutOf dg bs), o ≤ r.1 → r.1 < (readAll .fixed expired o hwm toks).2.1 →
+        r ∈ (readAll .fixed expired o hwm toks).1) := by
+  refine ⟨allTokens (layoutOf dg bs), tokenizeSet_enc crc hcrc dg bs hframes _ (Nat.le_refl _), ?_⟩
+  have hsafe : Safe o (layoutOf dg bs) := by
+    apply safe_of_v2
+    intro it hit
+    simp only [layoutOf, List.mem_map] at hit
+    obtain ⟨b, _, rfl⟩ := hit
+    rfl
+  have h := single_fetch (layoutOf dg bs) nb hnb hwf o hwm ho hsafe hne (-1) expired
+  simp only [responseTokens, containedRecords, show ((-1 : Int) < 0) from by decide, if_true] at h
+  exact ⟨h.1, h.2.1, h.2.2.1⟩
 
 /-- observation (a), not a finding: *outside* the fetch contract — a response cut inside its first v2 batch — the
 records below the start offset that were read and skipped leave the position below it (103 → 102); a later complete
